@@ -1,6 +1,7 @@
 package main
 
 import (
+	"encoding/json"
 	"fmt"
 	"strings"
 	"sync"
@@ -25,7 +26,7 @@ type freeResult struct {
 // and rebuilds an equivalent sequential history for the model.
 func runFree(c *Case, e *evalCtx) *freeResult {
 	f := c.Free
-	cl := &recClient{mode: c.Client, slow: time.Duration(f.SlowUs) * time.Microsecond}
+	cl := &recClient{mode: c.Client, slow: time.Duration(f.SlowUs) * time.Microsecond, fault: c.Fault}
 	snd := zip.NewForVerif(cl, toVS(c.Settings))
 	if f.Conf != nil {
 		snd.ApplyConfig(f.Conf.toConf()) // before the goroutine exists: settings are not synchronised
@@ -45,7 +46,7 @@ func runFree(c *Case, e *evalCtx) *freeResult {
 	if f.Accept == "failed" || f.Accept == "" {
 		snd.Queue.Failed = func(v interface{}) {
 			if p, ok := v.(*pack.LogSinkPack); ok {
-				markDropped(int(p.Line))
+				markDropped(e.byPtr[p])
 			}
 		}
 	}
@@ -231,31 +232,46 @@ func runFree(c *Case, e *evalCtx) *freeResult {
 				e.prop("emit:refused-record-emitted", "record %d was refused by the full queue (capacity %d) and emitted nevertheless", id, snd.Queue.GetCapacity())
 			}
 		}
-		lost := 0
+		var missing []int
 		for k, a := range accepted {
 			mine := map[int]bool{}
 			for _, id := range a {
 				mine[id] = true
 			}
-			var sub []int
+			var sub, kept []int
 			for _, id := range sharedIDs {
 				if mine[id] {
 					sub = append(sub, id)
 				}
 			}
-			if !eqInts(sub, a) {
-				if len(sub) < len(a) && eqInts(sub, a[:len(sub)]) {
-					lost += len(a) - len(sub)
+			for _, id := range a {
+				if seen[id] > 0 {
+					kept = append(kept, id)
 				} else {
-					e.prop("emit:not-exactly-once-in-order", "producer %d handed over %s; emitted of these, in order of emission: %s", k, vh.Clip(idsStr(a), 300), vh.Clip(idsStr(sub), 300))
+					missing = append(missing, id)
 				}
 			}
+			if !eqInts(sub, kept) && !e.hasKeySuffix("emit:duplicate") {
+				e.prop("emit:not-exactly-once-in-order", "producer %d handed over %s; emitted of these, in order of emission: %s", k, vh.Clip(idsStr(a), 300), vh.Clip(idsStr(sub), 300))
+			}
 		}
-		if lost > 0 && snd.Queue.Size() >= lost {
+		if len(missing) > 0 {
 			// all producers had returned before the stop: nothing may be left behind
-			e.prop("stop:queued-records-lost", "%d records accepted by the queue before the stop were never emitted (queue holds %d after the loop returned)", lost, snd.Queue.Size())
-		} else if lost > 0 {
-			e.prop("queue:accepted-record-lost", "%d records accepted by the queue (capacity %d) were never emitted and are not in the queue either (it holds %d)", lost, snd.Queue.GetCapacity(), snd.Queue.Size())
+			var specs []string
+			for i, id := range missing {
+				if i == 3 {
+					break
+				}
+				b, _ := json.Marshal(e.recs[id].Spec)
+				specs = append(specs, string(b))
+			}
+			if snd.Queue.Size() >= len(missing) {
+				e.prop("stop:queued-records-lost", "%d records accepted by the queue before the stop were never emitted (queue holds %d after the loop returned): %s",
+					len(missing), snd.Queue.Size(), strings.Join(specs, " "))
+			} else {
+				e.prop("emit:accepted-record-never-emitted", "%d records accepted by the queue (capacity %d) were never handed to the client and are not in the queue either (it holds %d) — lost inside the queue or swallowed inside Append: %s",
+					len(missing), snd.Queue.GetCapacity(), snd.Queue.Size(), strings.Join(specs, " "))
+			}
 		}
 		if !eqInts(directIDs, directWant) {
 			e.prop("SendDirect:not-exactly-once-in-order", "SendDirect batches %s emitted %s", idsStr(directWant), idsStr(directIDs))
